@@ -144,6 +144,16 @@ func Setup(repo string, props []string, extraPkgs []string) (*World, error) {
 		if tgt == nil {
 			return nil, fmt.Errorf("contract %s: cannot resolve target call", c.Display())
 		}
+		if tp := tgt.Pkg; c.Qualifier != "" || (tp != nil && tp.Pkg.Path() != c.Pkg) {
+			if w.ExtContracts[tgt] == nil {
+				w.ExtContracts[tgt] = map[string]*Contract{}
+			}
+			if prev := w.ExtContracts[tgt][c.Pkg]; prev != nil {
+				return nil, fmt.Errorf("two contracts for %s: %s:%d and %s:%d", tgt, prev.File, prev.Line, c.File, c.Line)
+			}
+			w.ExtContracts[tgt][c.Pkg] = c
+			continue
+		}
 		if prev, ok := w.Contracts[tgt]; ok {
 			return nil, fmt.Errorf("two contracts for %s: %s:%d and %s:%d", tgt, prev.File, prev.Line, c.File, c.Line)
 		}
@@ -316,6 +326,7 @@ func Discharge(obls []*Obligation, tmo time.Duration, workers int, dir string) [
 	scripts := make([]string, len(obls))
 	ground := make([]string, len(obls)) // quantifier-free weakening (empty if not applicable)
 	bare := make([]string, len(obls))   // quantifiers abstracted, no instances at all
+	final := make([][]*smt.Term, len(obls)) // the assert list of scripts[i] (for case splitting on retry)
 	for i, o := range obls {
 		var asserts []*smt.Term
 		if o.Vacuity {
@@ -344,6 +355,7 @@ func Discharge(obls []*Obligation, tmo time.Duration, workers int, dir string) [
 			}
 		}
 		scripts[i] = smt.Script(asserts, o.Values, true)
+		final[i] = asserts
 	}
 	var wg sync.WaitGroup
 	sem := make(chan struct{}, workers)
@@ -375,6 +387,10 @@ func Discharge(obls []*Obligation, tmo time.Duration, workers int, dir string) [
 					solved = true
 				}
 			}
+			if !solved && !o.Vacuity && ground[i] != "" && r.Status == "timeout" && len(o.Splits) > 0 {
+				// hard for both solvers on the instantiated script: go straight to the case-split retry
+				solved = true
+			}
 			if !solved {
 				r2 := smt.Solve(dir, fname, scripts[i], tmo)
 				r2.Secs += r.Secs
@@ -398,6 +414,101 @@ func Discharge(obls []*Obligation, tmo time.Duration, workers int, dir string) [
 		}
 	}
 	if len(retry) > 0 && len(retry) <= 24 {
+		// case split on the last few merged branch atoms: the merged state of a function with a
+		// switch is a big ite-DAG, each arm alone is straight-line. All cases unsat => unsat.
+		splitScripts := map[int][]string{}
+		for _, i := range retry {
+			sp := obls[i].Splits
+			if os.Getenv("GOVC_DEBUG_SPLIT") != "" {
+				fmt.Fprintf(os.Stderr, "retry %s: %d split atoms\n", obls[i].Name, len(sp))
+			}
+			if len(sp) == 0 {
+				continue
+			}
+			// a switch shows up as many atoms `x == const` on one x: split N+1 ways on those
+			groups := map[int][]*smt.Term{}
+			best := -1
+			for _, a := range sp {
+				if a.Op == "=" && len(a.Args) == 2 {
+					x := a.Args[0]
+					if x.IsConst() {
+						x = a.Args[1]
+					} else if !a.Args[1].IsConst() {
+						continue
+					}
+					groups[x.ID] = append(groups[x.ID], a)
+					if best < 0 || len(groups[x.ID]) > len(groups[best]) {
+						best = x.ID
+					}
+				}
+			}
+			if best >= 0 && len(groups[best]) >= 3 && len(groups[best]) <= 40 {
+				g := groups[best]
+				var none []*smt.Term
+				for _, a := range g {
+					splitScripts[i] = append(splitScripts[i], smt.Script(append(append([]*smt.Term{}, final[i]...), a), nil, false))
+					none = append(none, smt.Not(a))
+				}
+				splitScripts[i] = append(splitScripts[i], smt.Script(append(append([]*smt.Term{}, final[i]...), none...), nil, false))
+				continue
+			}
+			if len(sp) > 4 {
+				sp = sp[len(sp)-4:]
+			}
+			for m := 0; m < 1<<len(sp); m++ {
+				as := append([]*smt.Term{}, final[i]...)
+				for k, a := range sp {
+					if m&(1<<k) != 0 {
+						as = append(as, a)
+					} else {
+						as = append(as, smt.Not(a))
+					}
+				}
+				splitScripts[i] = append(splitScripts[i], smt.Script(as, nil, false))
+			}
+		}
+		var wg3 sync.WaitGroup
+		sem3 := make(chan struct{}, workers)
+		var mu sync.Mutex
+		splitOK := map[int]bool{}
+		splitSecs := map[int]float64{}
+		for i, ss := range splitScripts {
+			splitOK[i] = true
+			for k, sc := range ss {
+				wg3.Add(1)
+				go func(i, k int, sc string) {
+					defer wg3.Done()
+					sem3 <- struct{}{}
+					defer func() { <-sem3 }()
+					mu.Lock()
+					dead := !splitOK[i]
+					mu.Unlock()
+					if dead {
+						return
+					}
+					r := smt.SolveRace(dir, fmt.Sprintf("o%05ds%d", i, k), sc, tmo)
+					mu.Lock()
+					if r.Status != "unsat" {
+						splitOK[i] = false
+					}
+					if r.Secs > splitSecs[i] {
+						splitSecs[i] = r.Secs
+					}
+					mu.Unlock()
+				}(i, k, sc)
+			}
+		}
+		wg3.Wait()
+		var rest []int
+		for _, i := range retry {
+			if splitOK[i] {
+				out[i].R = smt.Result{Status: "unsat", Backend: "z3-5.1.0|cvc5-1.0+split", Secs: out[i].R.Secs + splitSecs[i]}
+				out[i].OK = true
+			} else {
+				rest = append(rest, i)
+			}
+		}
+		retry = rest
 		sem2 := make(chan struct{}, 4)
 		var wg2 sync.WaitGroup
 		for _, i := range retry {
